@@ -14,8 +14,11 @@ The leaf type `α` is generic: these functions observe leaves only through `==` 
 `isinstance(·, dict)`; the single truth-value test on a computed value (`if res:` in
 `difference`) is transcribed with an arbitrary truthiness `truthy : α → Bool` of leaves.
 
-The last section holds the *specification vocabulary* (containment `⊑` at a level), executable
-so that the harness can compare its Python reference of `⊑` with it. -/
+The last sections hold the *specification vocabulary* — containment `⊑` at a level (`contained`),
+the paths an update leaves alone (`untouchedL`), the items of `d1` not contained in `d2`
+(`diffSpec`), nesting depth (`depthL`) — executable so that the harness can compare its Python
+reference of each with it.  Object identities ("deep copy", "may be returned directly") are in
+`Model/C07Tok.lean`. -/
 
 namespace Lena.C07
 open Lena Lena.Val
